@@ -121,6 +121,8 @@ def obligations(tier, seed):
     base += [ob for ob in profiles.p_facility(thorough, H=H) if "fsk=all" in ob["name"] and "solof=0" in ob["name"]]
     base += [ob for ob in profiles.p_product("F2", thorough, H=H) if "wps=2" in ob["name"]]
     base += [ob for ob in profiles.p_product("F3", thorough, H=H) if "wps=2" in ob["name"] and ("wprule=0" in ob["name"] or thorough)]
+    # component states at a project-wide absence step that is also the pause step
+    base += [ob for ob in profiles.p_product("F1", thorough, H=H, absence=True) if "wps=2" in ob["name"] and "/fs" in ob["name"] and ("wprule=0" in ob["name"] or thorough)]
     for ob in base:
         ob = dict(ob)
         if not thorough:
@@ -137,6 +139,8 @@ def obligations(tier, seed):
     # through JSON: saved-settings members
     jb = profiles.wf_cubes(2, ["private", "shared1"], 2, H=H, name="j2")
     jb += [ob for ob in profiles.p_facility(thorough, H=H) if "fsk=all" in ob["name"] and "solof=0" in ob["name"] and "fixf=None" in ob["name"]][:2]
+    # a task whose work is used up waits (FF / SF) for several steps: its remaining work amount is negative at the pause
+    jb += [ob for ob in profiles.wf_cubes(2, ["private"], 3, H=H, name="j2w3", kinds=(2, 3)) if "edges=-" not in ob["name"]]
     for ob in jb:
         ob = dict(ob)
         if not thorough:
